@@ -195,7 +195,7 @@ for fn, nm, files in QFAM:
 # ---- C14: tokenizer call sequences
 for nm, path, wide in (('strtok_s', 'src/str/strtok_s.c', False), ('wcstok_s', 'src/wchar/wcstok_s.c', True)):
     J('B.%s.seq' % nm, ['C14', 'C01', 'C02', 'C05'], 'B', 'harness/tokfam.c', sources=[path] + WCS_COMMON,
-      defines=['N=3', 'DL=2', 'K=5'] + (['WIDE'] if wide else []), unwind=8, object_bits=10, replay=True,
+      defines=(['N=2', 'DL=2', 'K=4', 'WIDE'] if wide else ['N=3', 'DL=2', 'K=5']), unwind=8, object_bits=10, replay=True,
       functions=['_%s_chk' % nm], timeout=1200, tiers=('quick',),
       bound='strings of at most 4 elements, two delimiter sets of <= 2 characters chosen per call, 5 calls')
     J('B.%s.seq5' % nm, ['C14', 'C01', 'C02', 'C05'], 'B', 'harness/tokfam.c', sources=[path] + WCS_COMMON,
@@ -203,8 +203,27 @@ for nm, path, wide in (('strtok_s', 'src/str/strtok_s.c', False), ('wcstok_s', '
       functions=['_%s_chk' % nm], timeout=3000, tiers=('thorough',),
       bound='strings of at most 5 elements, two delimiter sets of <= 2 characters chosen per call, 7 calls')
     J('B.%s.delim17' % nm, ['C14', 'C02'], 'B', 'harness/tokfam.c', sources=[path] + WCS_COMMON,
-      defines=['N=2', 'DL=17', 'K=3'] + (['WIDE'] if wide else []), unwind=21, object_bits=10, replay=True,
-      functions=['_%s_chk' % nm], timeout=1200, tiers=('thorough',) if wide else ('quick', 'thorough'),
-      bound='strings of at most 3 elements, delimiter sets of up to 17 characters (the STRTOK_DELIM_MAX_LEN limit), 3 calls')
+      defines=['N=1', 'DL=17', 'K=2'] + (['WIDE'] if wide else []), unwind=21, object_bits=10, replay=True,
+      functions=['_%s_chk' % nm], timeout=3000, tiers=('thorough',),
+      bound='strings of at most 2 elements, delimiter sets of up to 17 characters (the STRTOK_DELIM_MAX_LEN limit), 2 calls')
+
+# ---- C16: qsort_s / bsearch_s
+SORT_SRC = ['src/misc/qsort_s.c', 'src/misc/bsearch_s.c'] + STR_COMMON + ['src/mem/safe_mem_constraint.c']
+QS_COMMON = STR_COMMON + ['src/mem/safe_mem_constraint.c']
+for w, tiers in ((4, ('quick', 'thorough')), (257, ('quick', 'thorough')), (300, ('thorough',)), (520, ('thorough',))):
+    J('B.qsort_s.cycle.w%d' % w, ['C16', 'C01', 'C12'], 'B', 'contracts/misc/qsort_parts.spec.c', sources=QS_COMMON,
+      defines=['PART=1', 'W=%d' % w], enforce='cycle', unwind=6, functions=['cycle'], timeout=900, tiers=tiers, mem_gb=16,
+      frame_prop=['C16', 'C01', 'C12'], cbmc_flags=['--max-field-sensitivity-array-size', '4096'],
+      bound='n <= 3 (n <= 2 for widths above 64) elements of width %d bytes in arbitrary slot order (the copy is chunked in 256-byte pieces), contents symbolic' % w)
+J('C.qsort_s.shl_shr', ['C16'], 'C', 'contracts/misc/qsort_parts.spec.c', sources=QS_COMMON, defines=['PART=2'],
+  enforce='shl', functions=['shl'], timeout=600, note='128-bit shift helper, every shift amount 1..127 except 64 (what pntz can return), all 2^128 values')
+J('C.qsort_s.shr', ['C16'], 'C', 'contracts/misc/qsort_parts.spec.c', sources=QS_COMMON, defines=['PART=4'],
+  enforce='shr', functions=['shr'], timeout=600)
+J('C.qsort_s.pntz', ['C16'], 'C', 'contracts/misc/qsort_parts.spec.c', sources=QS_COMMON, defines=['PART=3'],
+  enforce='pntz', functions=['pntz'], timeout=600)
+for sz, nm in ((4, 5), (1, 6)):
+    J('B.bsearch_s.sz%d' % sz, ['C16', 'C10', 'C02'], 'B', 'harness/sortfam.c', sources=SORT_SRC, defines=['FN=2', 'SZ=%d' % sz, 'NM=%d' % nm],
+      unwind=nm * sz + 20, object_bits=10, replay=True, functions=['_bsearch_s_chk'], timeout=900,
+      bound='sorted arrays of nmemb <= %d, element size %d, all keys' % (nm, sz))
 
 BY_NAME = {j.name: j for j in JOBS}
